@@ -632,7 +632,7 @@ def run_one(seed, preset=None, tier="quick", want_case=False):
     r["digest"] = run_digest(out.trace, out.events, out.resp, repr(out.exc))
     r["case_digest"] = run_digest(sdl, text, variables)
     r["nontrivial"] = bool(not viol and len(rt.hooks) >= 4 and len(kinds) >= 3)
-    r["sched_kinds"] = {sch[0]: 1}
+    r["sched_kinds"] = {sch[0] + ("+eager" if sch[2].endswith("+eager") else ""): 1}
     r["metrics"] = {"hook_invocations": len(rt.hooks), "directive_instances": arr.n + qn[0]}
     r["probes"] = {"hook_" + k: v for k, v in kinds.items()}
     r["probes"]["query_side_directive"] = int(qn[0] > 0)
